@@ -150,11 +150,14 @@ class Module:
         self.src = src
         self.is_pkg = is_pkg
         self.tree = ast.parse(src, filename=relpath)
+        self.imports = {}
+        self.reset()
+
+    def reset(self):
         self.parents = {}
         for p in ast.walk(self.tree):
             for c in ast.iter_child_nodes(p):
                 self.parents[c] = p
-        self.imports = {}
         self.classes = {}
         self.functions = {}
         self.consts = {}
@@ -164,6 +167,8 @@ class Module:
         return "<module %s>" % self.name
 
     def segment(self, node):
+        if getattr(node, "_inl", False):
+            return ast.unparse(node)
         try:
             return ast.get_source_segment(self.src, node) or ast.unparse(node)
         except Exception:
@@ -183,7 +188,7 @@ class Module:
 
 
 class Repo:
-    def __init__(self, root, overlay=None):
+    def __init__(self, root, overlay=None, inline=True):
         self.root = root
         self.overlay = overlay or {}
         self.modules = {}
@@ -191,8 +196,52 @@ class Repo:
         self._funcs = {}
         self._classes = {}
         self._func_of_node = {}
+        self.expanded = {}       # helper qualname -> number of call sites expanded (extract-method normalisation)
+        self.absorbed = set()    # helpers every reference to which was expanded
         self._load()
         self._index()
+        if inline:
+            from . import inline as _inl
+            self.expanded = _inl.normalise(self)
+            self.alias_rewrites = _inl.expand_aliases(self)
+            self.temp_folds = _inl.forward_temps(self)
+            if self.expanded or self.alias_rewrites or self.temp_folds:
+                self._funcs = {}
+                self._classes = {}
+                self._func_of_node = {}
+                for m in self.modules.values():
+                    m.reset()
+                self._index()
+                self._mark_absorbed()
+
+    def _mark_absorbed(self):
+        if not self.expanded:
+            return
+        mentioned = {}
+        for m in self.modules.values():
+            for n in ast.walk(m.tree):
+                if isinstance(n, ast.Attribute):
+                    mentioned[n.attr] = mentioned.get(n.attr, 0) + 1
+                elif isinstance(n, ast.Name):
+                    mentioned[n.id] = mentioned.get(n.id, 0) + 1
+                elif isinstance(n, ast.alias):
+                    mentioned[n.name] = mentioned.get(n.name, 0) + 1
+                elif isinstance(n, ast.Constant) and isinstance(n.value, str) and n.value.isidentifier():
+                    mentioned[n.value] = mentioned.get(n.value, 0) + 1      # getattr(self, "name")
+        for q in self.expanded:
+            name = q.rsplit(".", 1)[-1]
+            if not mentioned.get(name) and q in self._funcs:
+                self.absorbed.add(q)
+        # an absorbed helper is analysed through its callers only: drop it from every index
+        for q in self.absorbed:
+            fi = self._funcs.pop(q)
+            self._func_of_node.pop(fi.node, None)
+            m = fi.module
+            m.all_funcs = [x for x in m.all_funcs if x is not fi]
+            if m.functions.get(fi.name) is fi:
+                del m.functions[fi.name]
+            if fi.cls is not None and fi.cls.methods.get(fi.name) is fi:
+                del fi.cls.methods[fi.name]
 
     # ------------------------------------------------------------------ load
     def _load(self):
@@ -319,7 +368,9 @@ class Repo:
     def has_cls(self, q):
         return self.canonical(q) in self._classes
 
-    def funcs(self):
+    def funcs(self, with_absorbed=False):
+        """every function of the package; helpers that a change extracted and whose every use was expanded in place
+        are analysed through their callers only"""
         return list(self._funcs.values())
 
     def classes(self):
